@@ -10,7 +10,8 @@ import seqmodel as sm
 from common import F
 
 ID = 'C06'
-GEN_SECTIONS = ['GenDedup', 'GenBlock']
+GEN_SECTIONS = ['GenDedup', 'GenBlock', 'FP_store_events', 'FP_store_ext', 'FP_store_checks', 'FP_get_block',
+                'FP_event_lib', 'FP_dedup', 'FP_read_wrapper']
 COQ_TARGETS = ['Props/C06.vo']
 LEVEL = 'proof'
 BUDGET = {'quick': 200, 'thorough': 2400}
@@ -29,10 +30,11 @@ ASSUMPTIONS = ['caller does not mutate returned blocks (the generator never does
                'block indices >= 1; by-id events reference ids returned by register_* (dangling ids only with get_block)']
 
 
-def gen_history(rng, tier):
+def gen_history(rng, tier, collide_use=False):
     n_ops = rng.randint(5, 40 if tier == 'thorough' else 28)
     system = H.mk_system(rng, rng.choice([0, 0, 1]))
     pool = H.Pool(rng, system)
+    pool.collide_use = collide_use
     tw = H.Twin(system)
     last_stored = {}
     prev_last = [0.0, 0.0, 0.0]
@@ -74,8 +76,11 @@ def gen_history(rng, tier):
             if rec['outcome'][0] == 'ok' and i in last_stored:
                 d = content_matches(rec['outcome'][1], last_stored[i], tw.on)
                 if d:
+                    cls = 'content'
+                    if d == 'rf.use' and rf_use_shared(tw.on, i, rec['outcome'][1], last_stored[i]):
+                        cls = 'rf-use-shared-entry'
                     tw.twin_diffs.append({'op': len(tw.ops) - 1, 'kind': 'get', 'index': i,
-                                          'what': 'content differs from last stored: ' + d, 'class': 'content'})
+                                          'what': 'content differs from last stored: ' + d, 'class': cls})
         elif r < 0.82:
             ev = rng.choice([pool.trap, pool.rf, pool.adc, pool.label, lambda: pool.ext(None, 0.0, 0.0)])()
             tw.register(ev)
@@ -93,6 +98,7 @@ def gen_history(rng, tier):
             tw.write_read(do_read=True, detect_rf_use=rng.random() < 0.3)
             kinds.append('read')
             tw.on._pv_was_read = True
+            last_stored = {}      # what is stored now is what the file holds (no `use`, rounded values)
             prev_last = [0.0, 0.0, 0.0]
             ids2 = list(tw.on.block_events.keys())
             if ids2:
@@ -105,6 +111,21 @@ def gen_history(rng, tier):
                 ev = tw.on.block_events[ids2[-1]]
                 prev_last = [float(gl.data[ev[2 + c]][5]) if ev[2 + c] and gl.type[ev[2 + c]] == 'g' else 0.0 for c in range(3)]
     return tw, kinds
+
+
+USE_NAMES = {'e': 'excitation', 'r': 'refocusing', 'i': 'inversion', 's': 'saturation', 'p': 'preparation'}
+
+
+def rf_use_shared(seq, i, block, evs):
+    """the decoded `use` is faithful to the library entry, but that entry was created by an earlier RF event
+    with identical data and a different use (registration ignores `use` when looking the event up)"""
+    rid = int(seq.block_events[i][1])
+    t = seq.rf_library.type.get(rid, 'u')
+    want = [e for e in evs if getattr(e, 'type', '') == 'rf']
+    if not want:
+        return False
+    stored_use = getattr(want[0], 'use', 'undefined')
+    return getattr(block.rf, 'use', None) == USE_NAMES.get(t, 'undefined') and USE_NAMES.get(t, 'undefined') != stored_use
 
 
 def by_id(rng, tw, evs):
@@ -223,20 +244,20 @@ def case_of(seed_tag, n, kinds):
     return {'stream': seed_tag, 'index': n, 'kinds': kinds}
 
 
-def run_one(ctx, rng, n, tag):
-    st = rng.getstate()
-    tw, kinds = gen_history(rng, ctx.tier)
-    case = {'rng_stream': tag, 'history_index': n, 'kinds': kinds, 'seed': ctx.seed}
+def run_one(ctx, rng, n, tag, collide_use=False):
+    tw, kinds = gen_history(rng, ctx.tier, collide_use)
+    case = {'rng_stream': tag, 'history_index': n, 'kinds': kinds, 'seed': ctx.seed, 'tier': ctx.tier}
     ctx.count('ops.total', len(kinds))
     for k in kinds:
         ctx.count('op.' + k)
     nontrivial = ('get' in kinds) and any(k in kinds for k in ('set', 'dedupip', 'read'))
     ctx.evaluated((tag, n, tuple(kinds), tw.model_line()[:2000]), nontrivial=nontrivial)
     for d in tw.twin_diffs:
-        sig = 'C06/content' if d.get('class') == 'content' else 'C06/twin'
+        sig = {'content': 'C06/content', 'rf-use-shared-entry': 'C06/rf-use-shared-entry'}.get(d.get('class'), 'C06/twin')
         ctx.fail(sig, case, d)
         break
-    u = lib_unique(tw.on)
+    # (libraries filled by read() may legitimately hold rows that became equal through the file's rounding)
+    u = lib_unique(tw.on) if 'read' not in kinds else None
     if u:
         ctx.fail('C06/library-duplicate', case, {'what': u})
     errs = [r['outcome'][1] for r in tw.records if r['outcome'][0] == 'err']
@@ -263,6 +284,27 @@ def run(ctx):
             batch = []
     if batch:
         flush(ctx, batch)
+    known_finding_stream(ctx)
+
+
+def known_finding_stream(ctx):
+    """reproducer of the recorded finding: RF events differing only in `use` share a library entry"""
+    import pypulseq as pp
+    s = pp.Sequence()
+    a = pp.make_block_pulse(math.pi / 2, duration=1e-3, use='excitation')
+    b = pp.make_block_pulse(math.pi / 2, duration=1e-3, use='refocusing')
+    s.add_block(a)
+    s.add_block(b)
+    got = s.get_block(2).rf.use
+    ctx.evaluated('kf-rf-use')
+    ctx.count('stream.known_finding_reproducer')
+    if got != 'refocusing':
+        ctx.fail('C06/rf-use-shared-entry', {'reproducer': 'add_block(block pulse use=excitation); add_block(same pulse use=refocusing); get_block(2).rf.use'},
+                 {'got': got, 'expected': 'refocusing', 'rf ids': [int(s.block_events[1][1]), int(s.block_events[2][1])]})
+    # a few random histories with colliding uses: must only ever show this signature
+    rng = ctx.rng('collide')
+    for n in range(6 if ctx.tier == 'quick' else 100):
+        run_one(ctx, rng, n, 'collide', collide_use=True)
 
 
 def flush(ctx, batch):
@@ -278,8 +320,11 @@ def replay(ctx, case):
     rng = ctx.rng(case.get('rng_stream', 'histories'))
     # regenerate deterministically up to the recorded index
     tw = None
+    if 'reproducer' in case:
+        known_finding_stream(ctx)
+        return {'reproducer': case['reproducer']}
     for n in range(case['history_index'] + 1):
-        tw, kinds = gen_history(rng, 'quick' if ctx.tier == 'quick' else ctx.tier)
+        tw, kinds = gen_history(rng, case.get('tier', 'quick'), case.get('rng_stream') == 'collide')
     res = {'kinds': kinds, 'twin_diffs': tw.twin_diffs[:3]}
     for d in tw.twin_diffs[:1]:
         ctx.fail('C06/twin', case, d)
